@@ -84,6 +84,10 @@ pub struct TableProvider {
     /// depends on the order of the slice it is given (deterministic, but not a total order of
     /// its own)
     pub sort_ties: Cell<bool>,
+    /// asynchronous provider: about half of the requests need TWO completions by the scheduler
+    /// (the future returns Pending again after its first wake-up, as a provider that does two
+    /// I/O steps per request would)
+    pub two_step: Cell<bool>,
     /// once cancellation has been signalled the provider completes no request any more
     pub freeze_on_cancel: Cell<bool>,
     /// SortProbe::DepsAbandon: one nested request has been abandoned already
@@ -112,6 +116,7 @@ impl TableProvider {
             union_iter_unbounded: Cell::new(false),
             union_iter_lower_one: Cell::new(false),
             sort_ties: Cell::new(false),
+            two_step: Cell::new(false),
             freeze_on_cancel: Cell::new(false),
             abandoned_once: Cell::new(false),
         }
@@ -230,6 +235,9 @@ impl TableProvider {
             }
             let mut guard = LogDrop { log: &self.log, kind, key, done: false };
             Gate::new(s.clone(), kind, key).await;
+            if self.two_step.get() && matches!(kind, ReqKind::Candidates | ReqKind::Dependencies) && (key ^ (key >> 3)) & 1 == 0 {
+                Gate::new(s.clone(), kind, key).await;
+            }
             guard.done = true;
             self.log.borrow_mut().push(Call::Completed(kind, key));
         }
